@@ -58,41 +58,6 @@ func TestRaceFree(t *testing.T) {
 	}
 	w := newWorld()
 	iters := map[string]int{}
-	var wg sync.WaitGroup
-	for _, sc := range cscenarios() {
-		sc := sc
-		iters[sc.Name] = n
-		wg.Add(1)
-		go func() {
-			defer wg.Done()
-			for i := 0; i < n; i++ {
-				cw := newCWorld(w, sc)
-				for _, op := range sc.Preload {
-					applyFree(cw, op)
-				}
-				evs := make(chan core.TxPreEvent, 64)
-				sub := cw.p.SubscribeTxPreEvent(evs)
-				var tw sync.WaitGroup
-				for _, ops := range sc.Threads {
-					ops := ops
-					tw.Add(1)
-					go func() {
-						defer tw.Done()
-						for _, op := range ops {
-							applyFree(cw, op)
-						}
-					}()
-				}
-				tw.Add(1)
-				go func() { defer tw.Done(); readAll(cw); readAll(cw) }()
-				tw.Wait()
-				readAll(cw)
-				sub.Unsubscribe()
-				cw.p.Stop()
-			}
-		}()
-	}
-	wg.Wait()
 	// shape "subscriber queries the pool": the miner's worker handles TxPreEvents on the goroutine that also
 	// asks the pool for its pending set. A replacement (same nonce, price bump) submitted meanwhile must
 	// return, and its event must arrive (the pool must not wait for its subscribers while holding its lock).
@@ -146,6 +111,41 @@ func TestRaceFree(t *testing.T) {
 			cw.p.Stop()
 		}
 	}
+	var wg sync.WaitGroup
+	for _, sc := range cscenarios() {
+		sc := sc
+		iters[sc.Name] = n
+		wg.Add(1)
+		go func() {
+			defer wg.Done()
+			for i := 0; i < n; i++ {
+				cw := newCWorld(w, sc)
+				for _, op := range sc.Preload {
+					applyFree(cw, op)
+				}
+				evs := make(chan core.TxPreEvent, 64)
+				sub := cw.p.SubscribeTxPreEvent(evs)
+				var tw sync.WaitGroup
+				for _, ops := range sc.Threads {
+					ops := ops
+					tw.Add(1)
+					go func() {
+						defer tw.Done()
+						for _, op := range ops {
+							applyFree(cw, op)
+						}
+					}()
+				}
+				tw.Add(1)
+				go func() { defer tw.Done(); readAll(cw); readAll(cw) }()
+				tw.Wait()
+				readAll(cw)
+				sub.Unsubscribe()
+				cw.p.Stop()
+			}
+		}()
+	}
+	wg.Wait()
 	iters["subscriber-queries-the-pool"] = 20
 	for _, f := range fails {
 		fmt.Println("RACEPASS-FAIL " + f)
